@@ -238,6 +238,21 @@ func zooCases() map[string]zooCase {
 	m["store_long_array_into_array_elem"] = nested(catching(`aa[0] = [7, 8, 9]; return "stored:" + aa[0].join();`))
 	m["store_utf16_string_into_interface_elem"] = nested(catching(`ii[0] = String.fromCharCode(65); return "stored:" + ii[0];`))
 	m["nil_func_reads_undefined"] = nested(`typeof fn + "," + String(fn)`)
+	elems := func(script string) zooCase {
+		return zooCase{func(vm *otto.Otto) func() string {
+			aa := &[2][2]int{{1, 2}, {3, 4}}
+			sa := [][2]int{{1, 2}}
+			ss := []zT{{C: 1}}
+			vm.Set("aa", aa)
+			vm.Set("sa", sa)
+			vm.Set("ss", ss)
+			return func() string { return fmt.Sprintf("%v|%v|%v", *aa, sa, ss) }
+		}, script}
+	}
+	m["nested_array_elem_write"] = elems(catching(`aa[0][1] = 9; return "v:" + aa[0][1];`))
+	m["slice_of_array_elem_write"] = elems(catching(`sa[0][1] = 9; return "v:" + sa[0][1];`))
+	m["slice_of_struct_field_write"] = elems(catching(`ss[0].C = 5; return "v:" + ss[0].C;`))
+	m["nested_array_elem_read"] = elems(`aa[1][0] + "," + sa[0][1] + "," + ss[0].C`)
 	return m
 }
 
